@@ -220,7 +220,9 @@ def run_case(case, part):
         # ---- post-kill copy
         copy_dir = os.path.join(tmp, 'copy')
         os.makedirs(copy_dir)
-        for name in ('crawl.db', 'crawl.db-wal', 'crawl.db-shm'):
+        # (with --database-uri the table is opened without wpull's pragmas: rollback-journal mode, whose hot journal belongs to
+        # the state just as the write-ahead log does)
+        for name in ('crawl.db', 'crawl.db-wal', 'crawl.db-shm', 'crawl.db-journal'):
             p = os.path.join(tmp, name)
             if os.path.exists(p):
                 shutil.copy2(p, os.path.join(copy_dir, name))
@@ -410,6 +412,11 @@ def main():
                     for k in range(R):
                         for ph in ('request-line', 'after-response'):
                             points.append({'kind': 'request', 'at': k, 'phase': ph})
+                    if w['variant'] == 'db-uri':
+                        # the table class behind --database-uri sets its schema up itself: kills at every statement of that phase
+                        ddl = c['counts'].get('ddl', 0)
+                        points += [{'kind': 'before_stmt', 'at': k} for k in range(1, ddl + 3)]
+                        points += [{'kind': 'after_stmt', 'at': k} for k in range(1, ddl + 1)]
                 check.count('kill_points_option_variants', len(points))
                 for p in points:
                     cases.append(dict(w, kill=p, reference_requests=ref))
